@@ -695,4 +695,91 @@ theorem render_idem {t t' : Tbl} {ls : List Line} (h : render t = .ok (t', ls)) 
   simp only [printed, rew_widths, borderLine_rew, titleLinesOf_rew, setWidths_rew]
   rfl
 
+/-- the printed lines as a function of what they depend on: records, header, footer, columns and
+the effect of the limits on the body lines -/
+def linesWith (records : List Record) (header : Option (List Char)) (footer : List Char) (cols : List Col)
+    (lim : List TLine → List TLine × Int) : Except Err (List Line) := do
+  let tls ← mkTableLines (breakFields cols) Option.none records
+  let ws ← finalWidths cols ((lim tls).1.filterMap TLine.row?)
+  if ws.isEmpty then .error .assertion else
+  let nTitle ← titleCount ws
+  let body ← bodyLines ws (tableWidth (ws.map (·.2))) (lim tls).2 (lim tls).1
+  .ok ([borderLine ws] ++ headerLinesOf header (tableWidth (ws.map (·.2))) ++ titleLinesOf ws nTitle
+    ++ [borderLine ws] ++ body ++ [borderLine ws] ++ footerLinesOf footer (tableWidth (ws.map (·.2))))
+
+theorem lines_eq_linesWith (t : Tbl) :
+    lines t = linesWith t.records t.header t.footer t.fmt.cols
+      (fun tls => applyLimits t.fmt.limF t.fmt.limL tls t.records.length) := by
+  unfold lines render linesWith
+  simp only [bind, Except.bind]
+  cases mkTableLines (breakFields t.fmt.cols) Option.none t.records with
+  | error e => rfl
+  | ok tls =>
+    simp only
+    cases finalWidths t.fmt.cols
+        ((applyLimits t.fmt.limF t.fmt.limL tls t.records.length).1.filterMap TLine.row?) with
+    | error e => rfl
+    | ok ws =>
+      simp only
+      cases hws : ws.isEmpty with
+      | true => rfl
+      | false =>
+        simp only [Bool.false_eq_true, if_false]
+        cases titleCount ws with
+        | error e => rfl
+        | ok n =>
+          simp only
+          cases bodyLines ws (tableWidth (ws.map (·.2)))
+              (applyLimits t.fmt.limF t.fmt.limL tls t.records.length).2
+              (applyLimits t.fmt.limF t.fmt.limL tls t.records.length).1 with
+          | error e => rfl
+          | ok body => rfl
+
+theorem linesWith_congr (records : List Record) (header : Option (List Char)) (footer : List Char)
+    (cols : List Col) (lim lim' : List TLine → List TLine × Int)
+    (h : ∀ tls, mkTableLines (breakFields cols) Option.none records = .ok tls → lim tls = lim' tls) :
+    linesWith records header footer cols lim = linesWith records header footer cols lim' := by
+  unfold linesWith
+  cases hm : mkTableLines (breakFields cols) Option.none records with
+  | error e => rfl
+  | ok tls => simp only [bind, Except.bind, h tls hm]
+
+/-- the table as if it had never been printed -/
+def fresh (t : Tbl) : Tbl :=
+  { t with fmt := { t.fmt with cols := t.fmt.cols.map Col.reset, anySkipped := Option.none } }
+
+theorem reset_setWidths (ws : List (Col × Nat)) : (setWidths ws).map Col.reset = (ws.map (·.1)).map Col.reset := by
+  simp [setWidths, Col.reset, List.map_map, Function.comp_def]
+
+theorem map_reset_of_fresh (cols : List Col) (h : ∀ c ∈ cols, c.width = Option.none) : cols.map Col.reset = cols := by
+  induction cols with
+  | nil => rfl
+  | cons c cs ih =>
+    have hc := h c (by simp)
+    simp only [List.map_cons, ih (fun x hx => h x (List.mem_cons_of_mem _ hx))]
+    congr 1
+    cases c
+    simp only at hc
+    subst hc
+    rfl
+
+/-- printing does not depend on the stored widths: the invariant of all reachable tables -/
+def WidthsFaithful (t : Tbl) : Prop := lines t = lines (fresh t)
+
+theorem widthsFaithful_of_fresh (t : Tbl) (h : ∀ c ∈ t.fmt.cols, c.width = Option.none) : WidthsFaithful t := by
+  unfold WidthsFaithful
+  rw [lines_eq_linesWith, lines_eq_linesWith]
+  simp only [fresh, map_reset_of_fresh _ h]
+
+theorem widthsFaithful_render {t t' : Tbl} {ls : List Line} (h : render t = .ok (t', ls))
+    (hw : WidthsFaithful t) : WidthsFaithful t' := by
+  obtain ⟨tls, ws, nTitle, body, R⟩ := render_elim h
+  have hcols := finalWidths_cols _ _ _ R.ws_eq
+  unfold WidthsFaithful at hw ⊢
+  rw [lines_of_render (render_idem h), ← lines_of_render h, hw]
+  have : fresh t' = fresh t := by
+    rw [R.state_eq]
+    simp only [fresh, printed, reset_setWidths, hcols]
+  rw [this]
+
 end Table
